@@ -2,10 +2,12 @@ package main
 
 import (
 	"fmt"
+	"math/big"
 	"math/rand"
 	"sort"
 	"sync"
 
+	"github.com/consensys/gnark/backend"
 	"github.com/consensys/gnark/frontend"
 	"github.com/consensys/gnark/test"
 
@@ -213,6 +215,47 @@ func runC04(o *cli.Opts, run *evid.Run) {
 			run.Set("keccak_hint_wires", sys.Audit.HintWires)
 		}
 	})
+	// dishonest prover: every hint call the compiled gadget makes (none on a gadget built from xor/and alone) is
+	// discovered at run time and answered with forged values; the digest wires are read through a probe
+	forgeLens := []int{1, 137}
+	if o.Thorough() {
+		forgeLens = []int{0, 1, 136, 137, 273}
+	}
+	cli.ForEach(len(forgeLens)*2, 4, func(i int) {
+		n, sha3 := forgeLens[i/2], i%2 == 1
+		key := fmt.Sprintf("C04/forge/%s/len=%d", domName(sha3), n)
+		if !run.Wants(key) {
+			return
+		}
+		psys, err := rmon.Compile(rmon.BN254, &KeccakProbeCircuit{In: vars(8 * n), SHA3: sha3})
+		if err != nil {
+			run.Violate(key, "probe harness does not compile: "+err.Error(), nil)
+			return
+		}
+		var std *rmon.Sys
+		r := gen.RNG(o.Seed, key)
+		for k, kind := range []string{"random", "ones"} {
+			msg := c04Content(r, kind, n)
+			var want []*big.Int
+			for _, b := range bitsLSB(digest(sha3, msg)) {
+				want = append(want, big.NewInt(int64(b.(int))))
+			}
+			confirm := func(outs []*big.Int, opt backend.ProverOption) bool {
+				if std == nil {
+					if std, err = rmon.Compile(rmon.BN254, &KeccakCircuit{In: vars(8 * n), SHA3: sha3}); err != nil {
+						return false
+					}
+				}
+				var out [256]frontend.Variable
+				for i := range out {
+					out[i] = outs[i]
+				}
+				return std.SolveWith(&KeccakCircuit{In: bitsLSB(msg), Out: out, SHA3: sha3}, opt).Accepted
+			}
+			forgeStage(run, fmt.Sprintf("%s/%d", key, k), fmt.Sprintf("%s of a %d-byte %s message", domName(sha3), n, kind), psys,
+				func(tag int64) frontend.Circuit { return &KeccakProbeCircuit{In: bitsLSB(msg), Tag: tag, SHA3: sha3} }, want, confirm, o.Pick(8, 40))
+		}
+	})
 	// several hashes inside one circuit over consecutive sub-slices of one buffer (engine and compiled)
 	packed := [][]int{{32, 32, 32}, {8, 192}, {136, 1, 135}, {4, 68, 200}}
 	cli.ForEach(len(packed)*2, 4, func(i int) {
@@ -291,6 +334,7 @@ func runC04(o *cli.Opts, run *evid.Run) {
 	}
 	run.Require("length residues mod 136 covered", len(residues), 136)
 	run.Require("compiled lengths", len(compiled), 6)
+	run.Require("probe systems examined for prover-chosen values", run.GetInt("forge_probe_systems"), 4)
 }
 
 func boolInt(b bool) int {
